@@ -71,7 +71,7 @@ func (g *G) stmt(bd int) []hs.Stmt {
 			return []hs.Stmt{s}
 		}
 		return []hs.Stmt{g.println(d)}
-	case r < 70 && bd > 0:
+	case r < 68 && bd > 0:
 		// if statement
 		e := &hs.If{Cond: g.expr(hs.TBool, d), Then: g.block(bd-1, g.intn("nThen", 1, 3)), T: hs.TNull}
 		if g.chance("else", 50) {
@@ -209,7 +209,7 @@ func (g *G) assignStmt(d int) (hs.Stmt, bool) {
 		t = f.T
 		g.feat("assign-field")
 	} else if t.K == hs.KList && g.chance("assignElem", 50) && !g.c.off("assign-elem") {
-		target = hs.Index{X: target, I: hs.IntLit{V: int64(g.intn("assignIdx", -1, 1))}, T: *t.Elem}
+		target = hs.Index{X: target, I: hs.IntLit{V: int64(g.intn("assignIdx", -1, 0))}, T: *t.Elem}
 		t = *t.Elem
 		g.feat("assign-elem")
 	}
